@@ -7,7 +7,7 @@ HERE = os.path.dirname(os.path.abspath(__file__))
 CHECKS = {
  "C06": (True, "payflow", "model_checking",
    "bounded exhaustive histories of commitment updates on two channels of one real node with a ghost ledger of accepted contents",
-   "Every history of <= 4 (6) letters over: approve a keysend for H1, per channel validate-holder / revoke / sign-counterparty / counterparty-revokes with HTLC sets over the approved hash H1 (half, full, over the allowance, two parts) and the unapproved hash H2 (alone, or covered by incoming value), preimage disclosure, force close of a channel, restart; plus a narrower counterparty-side-only search to depth 6, a search that starts with the first part of the payment locked into both commitments, and one in which the approval is declined by the node-wide velocity limit (a declined hash must stay unbacked). After every accepted update the ledger inequality of the statement is evaluated in u128, and an accepted update that introduces an unbacked outgoing HTLC is a violation.",
+   "Every history of <= 4 (6) letters over: approve a keysend for H1, per channel validate-holder / revoke / sign-counterparty / counterparty-revokes with HTLC sets over the approved hash H1 (half, full, over the allowance, two parts) and the unapproved hash H2 (alone, or covered by incoming value), preimage disclosure, force close of a channel, restart; plus a narrower counterparty-side-only search to depth 6, a search that starts with the first part of the payment locked into both commitments, one that starts with an incoming HTLC for the approved hash locked in, and one in which the approval is declined by the node-wide velocity limit (a declined hash must stay unbacked). After every accepted update the ledger inequality of the statement is evaluated in u128, and an accepted update that introduces an unbacked outgoing HTLC is a violation.",
    "In-flight value is defined on the two current commitments of each channel (max of views outgoing, min of views incoming), as fixed in DESIGN 3.4.",
    "3.4"),
  "C17": (True, "macenum", "model_checking",
@@ -82,12 +82,12 @@ CHECKS = {
    "4.2"),
  "C07": (True, "c07", "model_checking",
    "deviation-bounded exhaustive enumeration (d=1 quick, d=2 thorough) of mutual-close requests over channel states reached by real commitment updates, both entry points, with a u128 reference predicate and a closing transaction built from first principles (cross-checked against LDK's builder on every case)",
-   "Bases: 10 channel states reached through validate/revoke/sign/revocation requests (both sides at commitment 0; at 1 with equal views; the two views differing by eps-1, eps, eps+1, -(eps+1), 2eps+1; an HTLC pending in the holder's, the counterparty's or both current commitments) x funder / fundee x commitment type x upfront shutdown script (none, wallet, allowlisted foreign) x entry point (semantic, raw transaction) x simple / chain-aware validator. Deviations: non-fee-payer's value at +-1, +-eps, +-(eps+1) and 0, the two values swapped; fee at min-2, min, max, max+2, 0 and 900000 sat; holder script kind (wallet at the right / wrong / no path, allowlisted, foreign, upfront, absent); counterparty script absent, or a wallet (with / without path) or allowlisted script; allowlist cleared between setup and signing; for the raw entry point output order, paths attached to the other output, version, locktime, sequence, prevout, extra output. Accepted => the reference holds (for the raw entry point: for some assignment of outputs to parties), the signature verifies against the independently built closing transaction spending the funding outpoint under the funding key, and channel_closed is set live and in a signer restored from a copy of the store.",
+   "Bases: 10 channel states reached through validate/revoke/sign/revocation requests (both sides at commitment 0; at 1 with equal views; the two views differing by eps-1, eps, eps+1, -(eps+1), 2eps+1; an HTLC pending in the holder's, the counterparty's or both current commitments) x funder / fundee x commitment type x upfront shutdown script (none, wallet, allowlisted foreign) x entry point (semantic, raw transaction) x simple / chain-aware validator. Deviations: non-fee-payer's value at +-1, +-eps, +-(eps+1) and 0, the two values swapped; fee at min-2, min, max, max+2, 0 and 900000 sat; holder script kind (wallet at the right / wrong / no path, allowlisted, foreign, upfront, absent); counterparty script absent, or a wallet (with / without path) or allowlisted script; allowlist cleared between setup and signing, or the allowlisted script removed and the signer restarted; for the raw entry point output order, paths attached to the other output, version, locktime, sequence, prevout, extra output. Accepted => the reference holds (for the raw entry point: for some assignment of outputs to parties), the signature verifies against the independently built closing transaction spending the funding outpoint under the funding key, and channel_closed is set live and in a signer restored from a copy of the store.",
    "epsilon 1000 sat, fee range 500..20000 sat/kw in the policy used; fee-rate rounding in the accepting direction.",
    "4.3"),
  "C08": (True, "c08", "model_checking",
    "deviation-bounded exhaustive enumeration (d=1 quick, d=2 thorough) of on-chain transactions on fresh real nodes through Node::check_onchain_tx and Approve::handle_proposed_onchain (recording approver), under checked and wrapping arithmetic, against an independent output classifier and a u128 fee bound",
-   "Bases: a wallet spend (change + allowlisted destination), a single-channel funding with change, a two-channel funding from two inputs x 2 policies (max fee rate 333333 / 5000 sat per kw, daily / hourly 3000 sat fee velocity) x 3 allowlists (foreign address; + the wallet's own change address; + a foreign xpub and the node's own xpub) x 3 entry points (check_onchain_tx, handle_proposed_onchain with a declining / an approving approver). Deviations: each output replaced by every other class (wallet native / wrapped / taproot at the right, wrong or no path; allowlisted script with and without path; xpub-derived at the right, wrong or no path; foreign with and without path; funding output breaking one rule: value +-1 / +100000, script of other keys, inbound, push, initial commitment not counter-signed, channel already advanced), outputs added / dropped / zero / 2^63 / 2^64-1, a third channel funded, segwit and non-segwit inputs added, segwit flags cleared, input values 0 / 2^64-1, version 1 / 3, the non-beneficial value set to 0, around max_rate x weight / 1000 for the unsigned, the signer's and the reference's weight, to every output value (+fee, x2), to 2^32 and 2^64 wrap candidates, the request repeated at once, after an hour, and (22 requests) until the allowance is used up and then again and again one bucket later, or after a reload of the unchanged policy; a funding base with an unknown destination is run with a declining and an approving operator. Channels are really created, set up on the transaction's outpoint and (unless the deviation says otherwise) their initial holder commitment validated with harness signatures.",
+   "Bases: a wallet spend (change + allowlisted destination), a single-channel funding with change, a two-channel funding from two inputs x 2 policies (max fee rate 333333 / 5000 sat per kw, daily / hourly 3000 sat fee velocity) x 3 allowlists (foreign address; + the wallet's own change address; + a foreign xpub and the node's own xpub) x 3 entry points (check_onchain_tx, handle_proposed_onchain with a declining / an approving approver). Deviations: each output replaced by every other class (wallet native / wrapped / taproot at the right, wrong or no path; allowlisted script with and without path; xpub-derived at the right, wrong or no path; foreign with and without path; funding output breaking one rule: value +-1 / +100000, script of other keys, inbound, push, initial commitment not counter-signed, channel already advanced), outputs added / dropped / zero / 2^63 / 2^64-1, a third channel funded, segwit and non-segwit inputs added, segwit flags cleared, input values 0 / 2^64-1, version 1 / 3, the non-beneficial value set to 0, around max_rate x weight / 1000 for the unsigned, the signer's and the reference's weight, to every output value (+fee, x2), to 2^32 and 2^64 wrap candidates, the request repeated at once, after an hour, and (22 requests) until the allowance is used up and then again and again one bucket later, or after a reload of the unchanged policy, the allowlisted destination removed and the signer restarted; a funding base with an unknown destination is run with a declining and an approving operator. Channels are really created, set up on the transaction's outpoint and (unless the deviation says otherwise) their initial holder commitment validated with harness signatures.",
    "A pass requires the reference to hold; a report of unknown destinations must list exactly the reference-unknown outputs, and the approver must be consulted exactly then. What an operator then approves is outside the property.",
    "4.4"),
  "C09": (True, "c09", "model_checking",
